@@ -136,7 +136,7 @@ PROPS = {
         "design_ref": "DESIGN.md §3.5, §3.16, §4 C05",
     },
     "C10": {
-        "rules": ["CFGMOD", "EQVGATE", "CFGSHAPE", "EQVSHAPE", "ENVSHADOW", "CONDSPEC", "EFFORDER", "LOCSETS", "VERDICT"],
+        "rules": ["CFGMOD", "EQVGATE", "CFGSHAPE", "EQVSHAPE", "ENVSHADOW", "CONDSPEC", "EFFORDER", "LOCSETS", "CFGREALS", "VERDICT"],
         "thorough": [],
         "technique": "static analysis: must-call + def-use threading of the changed-field set from the check to the recorded derivation; dominance of the equivalence gate over the callee swap",
         "level_text": "Structural clauses: every primitive that inserts or deletes a configuration write or swaps a callee obtains the possibly-changed field set from "
